@@ -16,6 +16,8 @@ func stringify(ty *Type, inProcess util.PtrSet) string {
 			return fmt.Sprintf("recursive-type %s@%p", ty.Kind, ty)
 		} else {
 			inProcess.Add(ty)
+			// 只有正在处理的祖先才算递归, 否则共享的类型节点 (e.g. 两个参数同一个 list[num]) 会被误判
+			defer inProcess.Remove(ty)
 		}
 	}
 
